@@ -23,6 +23,10 @@ type anode struct {
 	// Clos: the nested Stack carries closures of its own (unmarshal, presentation, validity, equality):
 	// they are honoured, or not, in the same way whatever form the Stack is stored in
 	Clos bool `json:"closures,omitempty"`
+	// Err: an error is put on record (SetErr) once the instance is complete; Rej: the instance's own validity
+	// closure currently answers with an error. Neither has any bearing on which form it is stored in.
+	Err bool `json:"error_on_record,omitempty"`
+	Rej bool `json:"validity_rejects,omitempty"`
 }
 
 var stackForms = []string{"native", "alias", "aliasS", "ptr-alias", "ptr-aliasS", "ptr-native"}
@@ -90,6 +94,12 @@ func (n anode) buildX(forms []int, h bool, late *[]func()) any {
 				s.SetPresentationPolicy(func(...any) string { return "CUSTOM-STRING" })
 			}
 		}
+		if n.Rej {
+			s.SetValidityPolicy(func(...any) error { return errCat })
+		}
+		if n.Err {
+			s.SetErr(errCat)
+		}
 		f := "native"
 		if n.Pos > 0 {
 			f = stackForms[forms[n.Pos-1]%len(stackForms)]
@@ -134,6 +144,12 @@ func (n anode) buildX(forms []int, h bool, late *[]func()) any {
 			// an equality closure of the Condition's own, with an answer the built-in comparison would not give
 			c.SetEqualityPolicy(func(a, b any) error { return errE })
 			c.SetValidityPolicy(func(...any) error { return nil })
+		}
+		if n.Rej {
+			c.SetValidityPolicy(func(...any) error { return errCat })
+		}
+		if n.Err {
+			c.SetErr(errCat)
 		}
 		f := condForms[forms[n.Pos-1]%len(condForms)]
 		switch f {
@@ -548,6 +564,16 @@ func c12Trees(c *Ctx) []anode {
 	trees = append(trees, S("AND", C("kw", Sf("LIST", lf("a"), lf("b")))), S("OR", lf("x"), C("k", S("AND", Sf("OR", lf("deep"))))), S("AND", Sf("OR", lf("x")), lf("y")), S("LIST", C("k", Sf("AND", lf("p"))), Sf("NOT", lf("q")), C("k2", lf("v"))))
 	Cc := func(kw string, ex anode) anode { return anode{T: "C", Kw: kw, Kids: []anode{ex}, Clos: true} }
 	trees = append(trees, S("AND", lf("a"), Cc("ck", lf("v"))), S("OR", Cc("ck", S("LIST", lf("e"))), C("outer", Cc("inner", lf("w")))))
+	// nested instances with an error on record, or whose own validity closure currently says no
+	mark := func(n anode, err, rej bool) anode { n.Err, n.Rej = err, rej; return n }
+	for _, fl := range [][2]bool{{true, false}, {false, true}, {true, true}} {
+		trees = append(trees,
+			S("AND", lf("a"), mark(C("ek", lf("v")), fl[0], fl[1]), lf("b")),
+			S("OR", mark(C("ek", S("LIST", lf("e"), nl)), fl[0], fl[1]), C("outer", mark(C("inner", lf("w")), fl[0], fl[1]))),
+			S("AND", lf("a"), mark(S("OR", lf("x"), lf("y")), fl[0], fl[1]), lf("b")),
+			S("LIST", C("k", mark(S("AND", lf("p"), S("NOT", lf("q"))), fl[0], fl[1])), mark(S("NOT"), fl[0], fl[1])),
+		)
+	}
 	// the long regime: wide parents (8, 9, 20 elements) with the nested position first, in the middle, last
 	for _, w := range []int{8, 9, 20} {
 		for _, at := range []int{0, w / 2, w - 1} {
